@@ -206,6 +206,7 @@ inductive OutFrame where
   | data (len : Nat) (flagEos : Bool) (frame : DataFrame)
   | headers (sid : Nat) (eos : Bool) (fields : List Hpack.Field)
   | reset (sid : Nat) (reason : Reason)
+  | pushPromise (sid promised : Nat) (fields : List Hpack.Field)
   deriving Repr
 
 /-- `Prioritize::pop_frame(buffer, store, max_len, counts)`.
@@ -258,6 +259,20 @@ def popFrame : Nat → Streams → Nat → Streams × Option OutFrame
         finish (s.modStream id fun st => { st with pendingSend := rest }) (.headers st.id heos fields)
       | .reset reason :: rest =>
         finish (s.modStream id fun st => { st with pendingSend := rest }) (.reset st.id reason)
+      | .pushPromise pk pid fields :: rest =>
+        let s := s.modStream id fun st => { st with pendingSend := rest }
+        -- `stream.store_mut().find_mut(&pp.promised_id()).unwrap()`: looked up by *id*
+        match s.store.findKey? pid with
+        | none => ((s.panic "called `Option::unwrap()` on a `None` value (promised stream)"), none)
+        | some pushed =>
+          let _ := pk
+          let s := s.modStream pushed fun st => { st with isPendingPush := false }
+          let s :=
+            if !(s.stream pushed).pendingSend.isEmpty then
+              if s.counts.canIncNumSendStreams then (((s.incNumSendStreams pushed).qPush .pendingSend pushed).1)
+              else s.queueOpen pushed
+            else s
+          finish s (.pushPromise st.id pid fields)
       | [] =>
         match st.state.getScheduledReset with
         | some reason =>
@@ -312,6 +327,7 @@ def bufferOut (s : Streams) (w : Writer) (f : OutFrame) : Streams × Writer :=
     | none => (s.panic "invalid frame: PayloadTooBig", w)
   | .headers sid eos fields => (s, w.bufferHeaders sid eos fields)
   | .reset sid reason => (s, w.bufferSimple 4 s!"R:{sid}:{reason}")
+  | .pushPromise sid promised fields => (s, w.bufferPushPromise sid promised fields)
 
 /-- the `loop` of `Prioritize::buffer_pending`; fuel: one unit per frame written -/
 def prioBufferPendingLoop : Nat → Streams → Writer → Streams × Writer × BufferStatus
@@ -367,6 +383,26 @@ def sendHeaders (s : Streams) (id : Nat) (eos : Bool) (fields : List Hpack.Field
       let s := s.queueFrame id (.headers eos fields)
       let s := if pendingOpen then s.notifyTask else s
       (s, .ok ())
+
+/-- `Send::reserve_local` (same id bookkeeping as `open`) -/
+def sendReserveLocal (s : Streams) : Streams × Except UserError Nat := s.sendOpenId
+
+/-- `Send::send_push_promise(frame, buffer, stream, task)`: queued on the *parent* stream -/
+def sendPushPromise (s : Streams) (parent : Nat) (promisedKey promisedId : Nat) (fields : List Hpack.Field) :
+    Streams × Except UserError Unit :=
+  if !s.actions.send.isPushEnabled then (s, .error .peerDisabledServerPush)
+  else match checkHeaders fields with
+    | .error e => (s, .error e)
+    | .ok _ => (s.queueFrame parent (.pushPromise promisedKey promisedId fields), .ok ())
+
+/-- `Send::send_interim_informational_headers(frame, buffer, stream, counts, task)` -/
+def sendInterimInformationalHeaders (s : Streams) (id : Nat) (fields : List Hpack.Field) : Streams × Except UserError Unit :=
+  match checkHeaders fields with
+  | .error e => (s, .error e)
+  | .ok _ =>
+    let st := s.stream id
+    if st.state.isSendStreaming || st.state.isSendClosed then (s, .error .unexpectedFrameType)
+    else (s.queueFrame id (.headers false fields), .ok ())
 
 /-- `Send::send_reset(reason, initiator, buffer, stream, counts, task)` -/
 def sendSendReset (s : Streams) (id : Nat) (reason : Reason) (init : Initiator) : Streams :=
